@@ -162,7 +162,7 @@ def _build(argv, paired):
     return _cli.make_pipeline_from_args(args, FileFormat.FASTQ, _Outfiles(), paired, adapters, adapters2)
 
 
-_ATTRS = ("length", "cutoff", "cutoff_front", "cutoff_back", "base", "revcomp", "times", "action", "length_tag", "suffix", "prefix", "quality_base", "_suffix")
+_ATTRS = ("length", "cutoff", "cutoff_front", "cutoff_back", "base", "revcomp", "times", "action", "length_tag", "suffix", "prefix", "quality_base", "_suffix", "_template")
 
 
 def _sig1(m):
@@ -427,7 +427,7 @@ def _row(paired, variant, trim_names, i, tail, keep_pipeline):
     """Everything native about one option subset: three permutations, coinciding modifier lists, instrumented
     pipeline, native chain verdicts for both mates."""
     opts = _opts(trim_names, i, tail)
-    row = {"opts": opts, "ok": False, "why": "", "pipeline": None, "recs": None}
+    row = {"opts": opts, "ok": False, "built": False, "mate_ok": {1: False, 2: False}, "why": "", "pipeline": None, "recs": None}
     try:
         fr = _fragments(opts, variant)
         perms = _permutations(fr, paired)
@@ -442,11 +442,14 @@ def _row(paired, variant, trim_names, i, tail, keep_pipeline):
             return row
         recs = _instrument(pls[0], paired)
         events = _run(pls[0], paired, 0)
+        row["built"] = True
         for mate in ((1, 2) if paired else (1,)):
-            if not _chain_ok(events, recs, opts, variant, mate, paired, 0):
-                row["why"] = "chain of mate %d differs from the documented order: argv=%r events=%r classes=%r" % (
+            row["mate_ok"][mate] = _chain_ok(events, recs, opts, variant, mate, paired, 0)
+            if not row["mate_ok"][mate]:
+                row["why"] += "chain of mate %d differs from the documented order: argv=%r events=%r classes=%r; " % (
                     mate, perms[0], events, {k: (type(o).__name__, r) for k, (o, r) in recs.items()})
-                return row
+        if not all(row["mate_ok"].values()):
+            return row
         row["ok"] = True
         if keep_pipeline:
             row["pipeline"], row["recs"] = pls[0], recs
@@ -465,7 +468,7 @@ def _live_tails(live):
 def _table():
     """rows of the current condition: {trim index: [rows for all tail combinations]} (built natively, cached)"""
     p = _PARAM
-    key = (p["paired"], tuple(sorted(p.get("variant", {}).items())), p["lo"], p["hi"], p.get("live", "three"))
+    key = (p["paired"], tuple(sorted(p.get("variant", {}).items())), p["lo"], p["hi"], p.get("live", "three"), p.get("tails", "all"))
     if key not in _TABLE:
         _TABLE.clear()
         paired, variant = p["paired"], p.get("variant", {})
@@ -473,7 +476,7 @@ def _table():
         live = _live_tails(p.get("live", "three"))
         tab = {}
         for i in range(p["lo"], p["hi"]):
-            tab[i] = [_row(paired, variant, names, i, t, t in live) for t in TAILS]
+            tab[i] = [_row(paired, variant, names, i, t, t in live) for t in _live_tails(p.get("tails", "all"))]
         _TABLE[key] = tab
     return _TABLE[key]
 
@@ -486,11 +489,14 @@ def set_param(p):
 
 
 def _idx(i, lo, hi):
-    """the concrete subset index (CrossHair: one path per index of the range)"""
-    for v in range(lo, hi - 1):
-        if i == v:
-            return v
-    return hi - 1
+    """the concrete subset index lo <= i < hi (CrossHair: one path per index of the range, found by bisection)"""
+    while hi - lo > 1:
+        mid = (lo + hi) // 2
+        if i < mid:
+            hi = mid
+        else:
+            lo = mid
+    return lo
 
 
 def _block_ok(i, mate, x):
@@ -498,7 +504,7 @@ def _block_ok(i, mate, x):
     rows = _table()[_idx(i, lo, hi)]
     # (a) complete enumeration: the native verdict of every combination of the name options in this block
     for row in rows:
-        if not row["ok"]:
+        if not row["built"] or not row["mate_ok"][mate]:      # parsing / permutations / building failed, or this mate's chain
             return False
     # (b) the real loop again, with the symbolic read value, on the kept pipelines of the block
     for row in rows:
@@ -535,26 +541,30 @@ def explain(i):
 CONDITIONS = []
 
 
-def _add(paired, variant, nbits, pieces, live="three", timeout=600, thorough_only=False, tag=""):
+def _add(paired, variant, nbits, pieces, live="three", tails="all", timeout=600, thorough_only=False, tag=""):
     n = 2 ** nbits
     step = (n + pieces - 1) // pieces
     for lo in range(0, n, step):
         hi = min(n, lo + step)
-        name = "%s/%s/subsets %d..%d of %d x %d name-option combinations" % ("paired" if paired else "single", tag or "plain", lo, hi - 1, n, len(TAILS))
+        name = "%s/%s/subsets %d..%d of %d x %d name-option combinations" % ("paired" if paired else "single", tag or "plain", lo, hi - 1, n, len(_live_tails(tails)))
         CONDITIONS.append({"name": name, "fn": "check_paired" if paired else "check_single", "timeout": timeout, "thorough_only": thorough_only,
-                           "param": {"paired": paired, "variant": variant, "lo": lo, "hi": hi, "live": live}})
+                           "param": {"paired": paired, "variant": variant, "lo": lo, "hi": hi, "live": live, "tails": tails}})
 
 
-_add(False, {}, 6, 1, live="all", tag="-u x1")
+# single-end: all 3072 subsets, every pipeline re-run under CrossHair; variants with all name-option combinations
+_add(False, {}, 6, 2, live="all", tag="-u x1")
 _add(False, {"cuts": 2, "q": "5,10", "xy": "x"}, 6, 1, tag="-u x2, -q 5,10, -x only")
 _add(False, {"adapter": "revcomp", "xy": "y"}, 6, 1, tag="--revcomp, -y only")
 _add(False, {"adapter": "front"}, 6, 1, live="none", tag="-g")
+# paired-end: all 49152 subsets in the base variant; the variants concern trimming options only and are combined with
+# three name-option combinations (none / all with -x -y / all with --rename)
 _add(True, {}, 10, 8, tag="-u/-U x1")
-_add(True, {"cuts": 2, "q": "5,10", "Q": "3,15"}, 10, 8, live="none", tag="-u/-U x2, -q 5,10 -Q 3,15")
-_add(True, {"adapter": "revcomp"}, 10, 8, live="none", tag="--revcomp")
-_add(True, {"adapter": "pair", "xy": "x"}, 10, 8, live="none", tag="--pair-adapters, -x only")
-_add(True, {"Q": "0"}, 10, 8, live="none", tag="-Q 0")
+_add(True, {"cuts": 2, "q": "5,10", "Q": "3,15"}, 10, 2, tails="three", live="none", tag="-u/-U x2, -q 5,10 -Q 3,15")
+_add(True, {"adapter": "revcomp"}, 10, 2, tails="three", live="none", tag="--revcomp")
+_add(True, {"adapter": "pair", "xy": "x"}, 10, 2, tails="three", live="none", tag="--pair-adapters, -x only")
+_add(True, {"Q": "0", "xy": "y"}, 10, 2, tails="three", live="none", tag="-Q 0, -y only")
 _add(True, {}, 10, 16, live="all", timeout=3000, thorough_only=True, tag="-u/-U x1, every pipeline re-run")
+_add(True, {"cuts": 2, "q": "5,10", "Q": "3,15", "adapter": "revcomp"}, 10, 16, live="none", timeout=3000, thorough_only=True, tag="-u/-U x2, -q 5,10 -Q 3,15, --revcomp, all name options")
 
 
 def describe():
@@ -563,10 +573,12 @@ def describe():
                       "cli.py:make_unconditional_cutters, make_quality_trimmers, make_adapter_cutter, make_shortener, modifiers_applying_to_both_ends_if_paired",
                       "pipeline.py:SingleEndPipeline.__init__/process_reads, PairedEndPipeline.__init__/_add_modifiers/_add_two_single_modifiers/_add_modifier/process_reads",
                       "modifiers.py:PairedEndModifierWrapper.__init__/__call__"],
-        "bounds": {"options": "single-end: all subsets of {-u, --nextseq-trim, -q, -a, --poly-a, -l} x {--trim-n, --length-tag, --strip-suffix, -x/-y, --rename, -z} (3072 admissible subsets: --rename excludes -x/-y); "
-                              "paired-end: all subsets of {-u, -U, --nextseq-trim, -q, -Q, -a, -A, --poly-a, -l, -L} x the same name options (49152 subsets)",
-                   "variants": "-u/-U given once or twice (order given), -q N / -q N,M / -Q N,M / -Q 0, -a / -g / --revcomp / --pair-adapters, -x and -y together or alone",
-                   "argv": "three permutations per subset (as listed, reversed, interleaved with the file names in the middle); a repeated -u keeps its relative order",
+        "bounds": {"options": "single-end: all subsets of {-u, --nextseq-trim, -q, -a, --poly-a, -l} x {--trim-n, --length-tag, --strip-suffix, -x/-y, --rename, -z} (3072 admissible subsets: --rename excludes -x/-y), "
+                              "every one of their pipelines re-run under CrossHair; paired-end: all subsets of {-u, -U, --nextseq-trim, -q, -Q, -a, -A, --poly-a, -l, -L} x the same name options (49152 subsets) natively, "
+                              "of which per trimming-option subset three pipelines (no name option / all with -x -y / all with --rename) are re-run under CrossHair (quick; thorough re-runs all 49152)",
+                   "variants": "each with all trimming-option subsets: -u/-U given twice (order given) with -q 5,10 -Q 3,15; -g instead of -a; --revcomp; --pair-adapters; -Q 0; -x alone; -y alone "
+                               "(single-end variants x all 48 name-option combinations, paired variants x three of them)",
+                   "argv": "three permutations per subset (as listed, reversed with the file names first, interleaved with the file names in the middle); a repeated -u keeps its relative order",
                    "reads": "one abstract read (pair) per run; payload symbolic"},
         "outside_bounds": ["what each modifier does to a read (C03, C13, C14, C09)", "options that do not modify reads (filters, outputs)", "--strip-suffix given several times, -n, --action",
                            "more than three argv permutations per subset"],
